@@ -38,6 +38,8 @@ pub struct Single<S: Sch> {
     pub values: Vec<S::F>,
     pub proof: Pf<S>,
     pub pre: usize,
+    /// the polynomial type itself cannot be evaluated at the point (its `evaluate` aborts): `values` are zeros then
+    pub undefined: bool,
 }
 
 /// Open all committed polynomials (in list order) at one point.
@@ -56,8 +58,12 @@ pub fn open_single<S: Sch>(
     let mut sponge = sponge_pre::<S::F>(pre);
     let mut rng = seed_rng(seed, 20 + k);
     let proof = do_open::<S>(&keys.ck, &polys, &comms, point, &mut sponge, &states, Some(&mut rng as &mut dyn RngCore))?;
-    let values = polys.iter().map(|p| p.polynomial().evaluate(point)).collect();
-    Ok(Single { point: point.clone(), values, proof, pre })
+    // the library answered; the reference values come from the polynomial type, which may itself refuse the point
+    let (values, undefined) = match catch(|| polys.iter().map(|p| p.polynomial().evaluate(point)).collect::<Vec<S::F>>()) {
+        Ok(v) => (v, false),
+        Err(_) => (vec![<S::F as ark_ff::Zero>::zero(); polys.len()], true),
+    };
+    Ok(Single { point: point.clone(), values, proof, pre, undefined })
 }
 
 pub fn check_single<S: Sch>(
